@@ -34,6 +34,8 @@ pub fn one_chain(ctx: &WorkerCtx, rep: &mut WorkerReport, case_seed: u64, rounds
     let (net, _) = net_for_shard(ctx.shard);
     let mut rng = crate::rng::Rng::new(case_seed);
     let mut w = World::new(case_seed, rpc::chain_id_for(net));
+    let scale = scale_world(&mut w, case_seed, true, ctx.thorough());
+    rep.set_add("scale_profiles", scale);
     w.profile.p_empty_block = 25;
     let mut r = new_driver("C01");
     let first = rng.range(3, 26);
